@@ -169,6 +169,61 @@ def ops_catalogue():
     add("cumsum(b)", dict(x=("abcd", VX)), lambda P, it: P["x"].cumsum("b"), lambda L: tuple(L["x"]))
     add("cumsum(d) in place", dict(x=("abcd", VX)), lambda P, it: (P["x"].cumsum("d", inplace=True), P["x"])[1], lambda L: tuple(L["x"]))
 
+    # pipelines: the operand has been used before, and the result of one operation is the operand of the next
+    def slice_sum_slice(P, it):
+        P["x"][{"b": it["b"][0]}]
+        s1 = P["x"].sum_to(("d", "a", "c"))
+        return s1[{"a": it["a"][-1]}]
+
+    add("x[{b: item}]; s = x.sum_to((d,a,c)); s[{a: item}]", dict(x=("abcd", VX)), slice_sum_slice, lambda L: ("d", "c"))
+
+    def slice_add_slice(P, it):
+        P["x"][{"a": it["a"][0]}]
+        z = P["x"] + P["y"]
+        return z[{"c": it["c"][-1]}]
+
+    add("x[{a: item}]; z = x + y; z[{c: item}]", dict(x=("abcd", VX), y=("dcb", VY)), slice_add_slice, lambda L: tuple(l for l in L["x"] if l in "bd"))
+
+    def sum_over_assign(P, it):
+        P["x"][{"d": it["d"][0]}]
+        s1 = P["x"].sum_over(("b",))
+        s1[{"c": it["c"][0]}] = P["y"]
+        return s1
+
+    add("x[{d: item}]; s = x.sum_over((b,)); s[{c: item}] = y", dict(x=("abcd", VX), y=("da", VY)), sum_over_assign, lambda L: tuple(l for l in L["x"] if l != "b"))
+
+    def pow_twice(P, it):
+        P["x"] ** P["y"]
+        return P["x"] ** P["y"]
+
+    add("x**y twice [same]", dict(x=("abc", VX), y=("abc", small_exp)), pow_twice, lambda L: tuple(L["x"]))
+    add("x**y twice [subset]", dict(x=("abcd", VX), y=("ca", small_exp)), pow_twice, lambda L: tuple(L["x"]))
+    add("x**y; y afterwards", dict(x=("abc", VX), y=("abc", small_exp)), lambda P, it: (P["x"] ** P["y"], P["y"])[1], lambda L: tuple(L["y"]))
+    add("x*y; y afterwards", dict(x=("abc", VX), y=("abc", VY)), lambda P, it: (P["x"] * P["y"], P["y"])[1], lambda L: tuple(L["y"]))
+    add("x/y; y afterwards", dict(x=("abc", VX), y=("abc", halfpow_by_label)), lambda P, it: (P["x"] / P["y"], P["y"])[1], lambda L: tuple(L["y"]))
+
+    def cast_write_source(P, it):
+        c1 = P["x"].cast_to(P["T"].dims)
+        c1[{"a": it["a"][0]}] = -1.0
+        return P["x"]
+
+    add("c = x.cast_to(T same dims); c[{a: item}] = -1; x afterwards", dict(x=("abc", VX), T=("cab", VZ)), cast_write_source, lambda L: tuple(L["x"]))
+    add("c = x.cast_to(T); c[{a: item}] = -1; x afterwards", dict(x=("abc", VX), T=("dcab", VZ)), cast_write_source, lambda L: tuple(L["x"]))
+
+    def sum_write_source(P, it):
+        s1 = P["x"].sum_to(("c", "a"))
+        s1.values[...] = -1.0
+        return P["x"]
+
+    add("s = x.sum_to((c,a)); overwrite s; x afterwards", dict(x=("abc", VX)), sum_write_source, lambda L: tuple(L["x"]))
+
+    def slice_write_source(P, it):
+        s1 = P["x"][{"b": it["b"][0]}]
+        s1.values[...] = -1.0
+        return P["x"]
+
+    add("s = x[{b: item}]; overwrite s; x afterwards", dict(x=("abcd", VX)), slice_write_source, lambda L: tuple(L["x"]))
+
     # data frames: export from the permuted array, import into the base order (and vice versa)
     def df_roundtrip(layout):
         def fn(P, it):
